@@ -1,0 +1,11 @@
+//go:build verif
+
+package raft
+
+// Contracts for the govc verifier (/verif). Comment-only.
+
+// "Trust follows the configuration - every peer in Raft mode"
+//@ func (cc *Consensus) IsTrustedPeer
+//@   property C07
+//@   ensures res
+//@   modifies nothing
